@@ -192,7 +192,7 @@ def one_config(rng, res, stream, cfg, label):
     except Exception as e:  # pylint: disable=broad-except
       problems.append(f"set_value({text!r} = {new_value!r}) raised {type(e).__name__}: {e}")
       from harness import c05
-      if c05.kwarg_named_like_posonly(cfg, daglish.path_str(path)):
+      if c05.kwarg_named_like_posonly_path(cfg, path):
         finding_key[0] = KNOWN_KWARG_SET
       break
     want = dict(flat)
